@@ -47,7 +47,7 @@ CHECKS = {
         "get_unchecked accesses - over all 2^256 masks and all indices < 256: exact bit semantics, no out-of-bounds access, and iter_unmarked enumerates exactly the clear "
         "bits below len in ascending order (init + step contracts, induction on position argued in 3 lines); and on Gc::clone / Gc::drop / Guard::guard / Guard::drop for a handle "
         "or guard whose heap has been dropped (the box is really freed in the harness): no access to the freed box, clone returns the same handle, guard is a no-op; Guard::guard on a live heap roots "
-        "only unpooled objects; Space::pool_object is idempotent; alloc_internal's reuse path returns the slot reset. Space::mark/sweep/collect, which Kani could not decide, are covered by a BOUNDED "
+        "only unpooled objects; Space::pool_object is idempotent; alloc_internal's reuse path returns the slot reset; Space::return_guard_to_pool / create_guard: recycled guard storage holds no roots, the pool never exceeds 16, a new guard is registered exactly once (bounded in the concrete pool size 0/15/16). Space::mark/sweep/collect, which Kani could not decide, are covered by a BOUNDED "
         "native stand-in only: every history of <= 8 operations over <= 2 guards and <= 3 objects against a reachability model, plus long random histories (never counted as proved). "
         "Loops unwound past their structural bound with the unwinding assertion on, so the harnesses are complete, not bounded.",
    note="Trusted: Kani/CBMC. NOT proved: guard reachability through Space::mark's traversal and sweep (bounded stand-in only) - Rc<RefCell>/NonNull code outside both verifiers "
